@@ -377,5 +377,8 @@ def run(rep, tier):
         from ..engines import row_coverage
         from ..engines import simd_rules as _sr
         rep.call(_sr.float_alpha_unsaturated, rep, prog, "C07.float-unsaturated")
+        # the premultiplied copy is complete: the scalar tail of a chunked row routine treats all
+        # remaining pixels (else the last columns of the scratch image keep stale premultiplied data)
+        rep.call(row_coverage.tail_complete, rep, prog, "C07.tail-complete")
         rep.call(row_coverage.divide_every_chunk, rep, prog, "C07.divide-every-chunk",
                  {"x86": 12, "x86-rayon": 12, "wasm": 2}.get(cfg, 0))
